@@ -224,6 +224,11 @@ def execute(case):
         history = ex.history()
         history['fault'] = fault
         history['class'] = klass
+        if any(r['who'].startswith('hook:') and r['raised'] and 'already transitioning' in r['raised'] for r in w.futs):
+            # a hook plan asked for a transition from inside a transition that is carried out directly (here: the one
+            # the injected fault caused): plumpy refuses by assertion, which makes the hook a second failing piece of user
+            # code - outside "one injected fault per run"
+            return {'violations': [], 'nontrivial': False, 'classes': ['hook-reentered-direct-transition'], 'history': history}
         if fired is None:
             # the fault point was not reached in this run (an earlier deviation): not a verdict about C03
             return {'violations': [], 'nontrivial': False, 'classes': ['not-fired'], 'history': history}
